@@ -431,7 +431,14 @@ func NodeStartPos(node *Node) token.LnColPos {
 		return node.AttrExpr().Start
 
 	case TypeIndexExpr:
-		return node.IndexExpr().Obj.Start
+		e := node.IndexExpr()
+		if e.Obj != nil {
+			return e.Obj.Start
+		}
+		if len(e.LBracket) > 0 { // object-less form `.[i]`
+			return e.LBracket[0]
+		}
+		return token.InvalidLnColPos
 
 	case TypeUnaryExpr:
 		return node.UnaryExpr().OpPos
